@@ -118,6 +118,20 @@ CHECKS = {
     text="Decides the clause 'code points above U+10FFFF are rejected rather than used as table indices' for every input string: each plane-table access is bounded where it happens or at all call sites of its helper. Conformance of normalisation and folding to the Unicode standard, idempotence and the iswfc/towfc_s length agreement are value-level over 17k table entries and are not decided.",
     design_ref="DESIGN.md §3.2, §4 C17",
     note=TB + "; 32-bit wchar_t configuration; one fix: commit in /repo (two crashes on out-of-range code points)"),
+ "C06": dict(
+    engine="pathflags",
+    technique="path-sensitive abstract interpretation with a 'destination budget exhausted before a terminator was copied' flag over the 10 non-truncating copy/concatenate functions; plus (in C05) a checked precondition 'measured strlen(src) < dmax' where the result of a nested copy is ignored",
+    category="other",
+    text="Decides the clause 'if the complete result does not fit the non-truncating functions fail instead of storing a shortened result': on no path does a success return follow the edge on which the counter initialised from dmax reached zero while data had been written and no terminator copied; every function has such exhausted paths (the rule is not vacuous) and they reach error returns. Equality of the stored bytes with strcpy/strcat/memcpy/..., the word-unrolled primitives at each alignment/length and returned pointers/counts are value-level and not decided.",
+    design_ref="DESIGN.md §4 C06",
+    note=TB + "; only the no-silent-truncation clause is claimed"),
+ "C14": dict(
+    engine="capcheck",
+    technique="relational abstract interpretation of the two tokenizers with the string = merge(dest, *ptr) and capacity = entry value of *dmaxp: bounded accesses, consistency of the continuation pair, exactness of the delimiter-limit exit (off(delim cursor) == STRTOK_DELIM_MAX_LEN entailed both ways); CFG must-pass rule for storing *ptr; only-zero-stores rule",
+    category="other",
+    text="Decides the bound clauses for all strings, dmax and delimiter sets: every access through the string cursor lies inside *dmaxp, the (*ptr, *dmaxp) pair handed back never permits access past the original *dmaxp, only zeros are stored into the string, a returned token implies *ptr was stored, and the 'delim is unterminated' exit fires exactly after STRTOK_DELIM_MAX_LEN scanned delimiters (so all of them take part). Not decided: that the sequence of calls yields each maximal token exactly once.",
+    design_ref="DESIGN.md §4 C14",
+    note=TB + "; the caller hands back the previous (*ptr, *dmaxp) pair unchanged; 9 known findings (reads/writes at dest[*dmaxp] on the unterminated path, last token returned without storing *ptr)"),
 }
 
 NOT_APPLICABLE = {
